@@ -18,6 +18,8 @@ SPEC = {
             "frames + SessionTeardown; subscriber.Manager) and on the Model, comparing the full resource snapshot after "
             "every operation; distinct = distinct Coq case terms",
     "assumptions": [
+        "overlapping PPPoE terminations are modelled sequentially (POverlap = first path, then second, with TerminateAll reading its session list before the held path removed the session); the interleaving is forced on the real code by gates (eBPF callback, withheld Accounting-Response) and validated, not proved",
+        "fault injection = a kernel hash map of the same key/value size with max_entries 1 whose slot is taken: Put of a new key fails with E2BIG, updates and deletes work; other map errors (EPERM, ENOMEM) are assumed to take the same error branches",
         "concurrency is validated, not proved: the sequential Model takes the number r of concurrent TerminateSession callers that got through as an oracle observed on the real code (forced interleaving through a barrier in the harness allocator); Go scheduler and memory model are outside the Model",
         "guards of the theorems are decidable predicates on the state in which the session ends (pool bookkeeping intact, no manager state without manager, no earlier Stop); they fail on reachable states only through defects owned by C02/C20 (circuit-ID index shared between MACs, DECLINE of another client's address, circuit-id hash/key collisions); generators use one circuit-id per client",
         "C16_dhcp_expiry is about the per-lease body of cleanupExpiredLeases; the fold over several expired leases is tied by the differential run (oracle: map iteration order)",
@@ -32,7 +34,7 @@ SPEC = {
 }
 
 MANIFEST = {
-    "text": "Every way a session ends is a transition of a resource-accounting Model (DHCP: RELEASE, DECLINE, lease expiry; PPPoE: PADT, LCP Terminate-Request, authentication failure, idle cleanup, SessionTeardown (admin/RADIUS disconnect, TerminateAll = shutdown); subscriber.Manager: TerminateSession on a live / cancelled / expired caller context and with a failing allocator release, timeouts, concurrent terminations, Stop) that removes exactly what the code removes on that path. Theorems state, for each path, that the summary function 'held' of the ended session (fixed before the end) is empty afterwards — address back in the pool, NAT block, QoS policy, cache entries by MAC/circuit-id/VLAN gone, one Stop per Start — and that a second ending operation returns the state unchanged with no accounting record; the clauses the code does not satisfy are refuted by vm_compute witnesses that the check replays on the real code as known findings (DECLINE of another address, offered-only sessions, PPPoE idle cleanup, shutdown, teardown after the server already ended the session). The Model is evaluated inside Coq on full before/after resource snapshots recorded from the real dhcp.Server with real NAT/QoS managers and loader on kernel eBPF maps and a recording RADIUS server, the real pppoe.Server + SessionTeardown, and the real subscriber.Manager, on every run. Five defects were repaired in the repository (81d6b2b, b42d48d, f58f3aa, fe50cc3, ac242d7).",
+    "text": "Every way a session ends is a transition of a resource-accounting Model (DHCP: RELEASE, DECLINE, lease expiry, after renewals that drop or change the Circuit-ID and under full kernel maps (a Put failing between the two writes of a QoS policy, of a NAT block, of each cache entry); PPPoE: PADT, LCP Terminate-Request, authentication failure, idle cleanup, SessionTeardown (admin/RADIUS disconnect, TerminateAll = shutdown), also two of these at once with the first held inside cleanup at the eBPF callback or at the Accounting-Response; subscriber.Manager: TerminateSession on a live / cancelled / expired caller context and with a failing allocator release, timeouts, concurrent terminations, Stop) that removes exactly what the code removes on that path. Theorems state, for each path, that the summary function 'held' of the ended session (fixed before the end) is empty afterwards — address back in the pool, NAT block, QoS policy, cache entries by MAC/circuit-id/VLAN gone, one Stop per Start — and that a second ending operation returns the state unchanged with no accounting record; the clauses the code does not satisfy are refuted by vm_compute witnesses that the check replays on the real code as known findings (DECLINE of another address, offered-only sessions, PPPoE idle cleanup, shutdown, teardown after the server already ended the session). The Model is evaluated inside Coq on full before/after resource snapshots recorded from the real dhcp.Server with real NAT/QoS managers and loader on kernel eBPF maps and a recording RADIUS server, the real pppoe.Server + SessionTeardown, and the real subscriber.Manager, on every run. Six defects were repaired in the repository (81d6b2b, b42d48d, f58f3aa, fe50cc3, ac242d7, c878197).",
     "note": "Theorems are about the hand-written resource-level Model (it abstracts resource contents); the tie is the differential run (sampled + enumerated paths x prefixes x pairs). Guards are decidable state predicates (bookkeeping intact), exhibited on reachable states and kept by the guarded streams, not derived from a history invariant. Concurrent termination is validated by forced interleaving, not proved. DHCP/PPPoE server shutdown is by reading.",
     "technique": "Rocq proof (association-list / filter reasoning over a composition model, fold invariants, vm_compute refutation witnesses) + differential correspondence on real objects with kernel eBPF maps and a recording RADIUS server + trace monitor",
     "design_ref": "DESIGN.md §8 C16, docs/C16.md",
